@@ -8,7 +8,7 @@ from qv import core
 from qv.core import bits, mat
 
 RULE = ('exhaustive over all Pauli strings / bsf vectors / ordered pairs for n<=N0, all (n,lo,hi) for ipauli with '
-        'n<=N1, all pack lengths 0..L, plus seeded random vectors and matrices up to n=300; a case is non-trivial '
+        'n<=N1, all pack lengths 0..L, plus seeded random vectors and matrices up to n=300, call histories with in-place updates of returned arrays, dense operators at accumulator-width boundaries up to n=2^20+1 (2^24+3 thorough); a case is non-trivial '
         'when its operand is not all-identity/all-zero; distinct = distinct protocol lines')
 
 ANTI = {(a, b): (a != 'I' and b != 'I' and a != b) for a in 'IXYZ' for b in 'IXYZ'}
@@ -114,6 +114,48 @@ def run(ctx):
     ctx.exhaustive = False
     ctx.extra['exhaustive_subdomains'] = ['all strings/bsf n<={}'.format(n0), 'all ordered pairs n<=3',
                                           'all (n,lo,hi) n<={}'.format(n1)]
+    # --- histories: a result array must be a fresh value — mutating what a call returned must not change what the
+    # next call with the same argument returns (round trip / injectivity hold for every call, not just the first)
+    for _ in range(ctx.scale(200, 2000)):
+        n = rng.choice([1, 2, 3, 5, 8, 17])
+        s_ = rand_pauli(rng, n)
+        first = pt.pauli_to_bsf(s_); want = first.copy()
+        first ^= 1                                   # caller updates the returned error in place (as app does with ^=)
+        again = pt.pauli_to_bsf(s_)
+        ctx.count('history', 'tobsf-mutate-again')
+        if not np.array_equal(again, want):
+            ctx.monitor_fail('pauli_to_bsf(s) differs after the array returned by an earlier identical call was updated in '
+                             'place: string<->bsf is no longer a bijection', {'pauli': s_, 'first': bits(want),
+                                                                             'second': bits(again)}, key=None)
+        lst = [rand_pauli(rng, n) for _ in range(3)]
+        m1 = pt.pauli_to_bsf(lst); w1 = m1.copy(); m1[:] = 0
+        if not np.array_equal(pt.pauli_to_bsf(lst), w1):
+            ctx.monitor_fail('pauli_to_bsf(list) differs after in-place update of an earlier result', {'paulis': lst})
+        b_ = np.array([rng.randint(0, 1) for _ in range(2 * n)])
+        keep = b_.copy(); p1 = pt.bsf_to_pauli(b_); pk = pt.pack(b_); u1 = pt.unpack(pk); u1w = u1.copy(); u1 ^= 1
+        if not (np.array_equal(b_, keep) and pt.bsf_to_pauli(b_) == p1 and pt.pack(b_) == pk
+                and np.array_equal(pt.unpack(pk), u1w)):
+            ctx.monitor_fail('bsf_to_pauli / pack / unpack mutate their argument or depend on earlier calls',
+                             {'bsf': bits(keep)})
+    # --- accumulator width: dense operators with an odd number of anticommuting positions around every power of two
+    # an integer / float accumulator could saturate at (ground truth: X^a on A vs Z on B anticommute iff |A∩B| is odd)
+    sizes = [127, 128, 129, 255, 256, 257, 32767, 32768, 32769, 65535, 65536, 65537, (1 << 20) + 1]
+    if not ctx.quick():
+        sizes += [(1 << 24) + 1, (1 << 24) + 3]     # float32 mantissa; needs ~2 GB and ~40 s
+    for n in sizes:
+        for overlap in (n, n - 1):
+            a = np.zeros(2 * n, dtype=int); b = np.zeros(2 * n, dtype=int)
+            a[:n] = 1                    # X on every qubit
+            b[n:n + overlap] = 1         # Z on the first `overlap` qubits
+            got = int(pt.bsp(a, b)); want = overlap % 2
+            ctx.count('dense_bsp_n', n)
+            ctx.evaluations += 1
+            if got != want or int(pt.bsp(b, a)) != want:
+                ctx.monitor_fail('bsp of dense operators disagrees with the Pauli-group commutation (X^n vs Z^m '
+                                 'anticommute iff m is odd)', {'n': n, 'z_weight': overlap, 'bsp': got, 'expected': want})
+            if overlap == n and int(pt.bsf_wt(a ^ b if False else a)) != n:
+                ctx.monitor_fail('bsf_wt of X^n is not n', {'n': n})
+            del a, b
     return ctx.finish(RULE, search=search)
 
 
